@@ -9,7 +9,8 @@ import time
 
 from .common import VERIF
 
-EVIDENCE_DIR = os.path.join(VERIF, "evidence")
+# (seedtest.sh points this elsewhere so that runs against a seeded scratch tree never overwrite the committed evidence)
+EVIDENCE_DIR = os.environ.get("VERIF_EVIDENCE_DIR") or os.path.join(VERIF, "evidence")
 REPLAY_DIR = os.path.join(VERIF, "out", "replay")
 KNOWN_PATH = os.path.join(VERIF, "known_findings.json")
 
